@@ -36,8 +36,9 @@ def sites(path, lines_range):
     in_doc = False
     for i, line in enumerate(src):
         s = line.strip()
-        if s.startswith('"""') or s.startswith("'''"):
-            if not (s.count('"""') == 2 or s.count("'''") == 2):
+        nq = s.count('"""') + s.count("'''")
+        if nq:
+            if nq % 2:
                 in_doc = not in_doc
             continue
         if in_doc or not s or s.startswith("#") or s.startswith(("import ", "from ", "class ", "def ", "@", "raise ", '"', "f\"", "'")):
